@@ -299,9 +299,55 @@ def lazy_rule(ctx):
     return obs
 
 
+def wave8_rules(ctx):
+    """obligations added after the eighth wave of seeded changes"""
+    ob = ctx.ob
+    tc = ctx.tc
+    obs = []
+    # (1) the dependency queries report every reference of the file: nothing is filtered by anything but the kind of the reference
+    n_ = 0
+    for f in tc.fns:
+        if not f.body or f.name not in ("direct_dependencies", "script_dependencies") or f.base not in ("Template", "TmplGroup"):
+            continue
+        n_ += 1
+        probs = []
+        for n in sir.walk(f.body):
+            if n.get("k") != "mcall":
+                continue
+            if n["m"] in ("take", "skip", "take_while", "skip_while", "step_by", "dedup", "nth", "last"):
+                probs.append("the list is cut by `%s`" % n["m"])
+            if n["m"] in ("filter", "filter_map", "retain") and n["args"] and n["args"][0].get("k") == "closure":
+                clo = n["args"][0]
+                bound = set(b for pp in clo["params"] for b, _ in sir.pat_bindings(pp))
+                for x in sir.walk(clo["body"]):
+                    if x.get("k") in ("arm", "let", "local") and x.get("pat") is not None:
+                        bound |= set(b for b, _ in sir.pat_bindings(x["pat"]))
+                free = set()
+                for x in sir.walk(clo["body"]):
+                    if x.get("k") == "path" and len(x["segs"]) == 1 and x["segs"][0] not in bound and not x["segs"][0][:1].isupper() and x["segs"][0] not in ("self",):
+                        free.add(x["segs"][0])
+                    if x.get("k") == "path" and x["segs"] == ["self"] and n["m"] in ("filter", "retain"):
+                        free.add("self")
+                if n["m"] in ("filter", "retain") and free:
+                    probs.append("references are dropped depending on `%s`, not on their own kind" % sorted(free)[0])
+        obs.append(ob("C13.deps/complete/%s::%s" % (f.base, f.name), not probs, ctx.where(f), "every reference of the file is reported" if not probs else "; ".join(sorted(set(probs))),
+                      witness=None if not probs else "a template importing itself (or a script added later) is linked by the generated code but missing from the dependency list"))
+    if n_ < 4:
+        obs.append(ob("C13.floor/deps", False, "parse/tag.rs, group.rs", "only %d dependency queries found (floor 4)" % n_))
+    # (2) modules are loaded in the order in which the parser numbered their scopes (shared with C05.mirror/gen/start)
+    from rules.c05 import check_mirror
+    for x in check_mirror(ctx):
+        if x["key"].endswith("mirror/gen/start"):
+            x = dict(x)
+            x["key"] = "C13.lazy/module-order"
+            obs.append(x)
+    return obs
+
+
 def run(ctx):
     obs = same_rule(ctx)
     obs += suffix_rule(ctx)
     obs += algo_rule(ctx)
     obs += lazy_rule(ctx)
+    obs += wave8_rules(ctx)
     return obs
